@@ -101,6 +101,11 @@ func (sc *scenario) api() string {
 		return e
 	}
 	defer release(in)
+	return sc.apiOn(in)
+}
+
+// apiOn calls the stand-alone checks against an instance that holds the scaffold (nothing is delivered).
+func (sc *scenario) apiOn(in *inst) string {
 	chain := in.chain
 	params := chain.ChainParams()
 	v := sc.v
